@@ -10,4 +10,7 @@ EXTENDS Naturals, Sequences, FiniteSets
 
 C35_Returns(o) == o.returned
 C35_Exited(o) == o.returned => ~o.alive
+\* o.stuck: a Write was parked on the full standard input pipe when Close was called;
+\* o.wreturned / o.werr: every such Write has come back / with an error
+C35_WriteUnblocked(o) == (o.returned /\ o.stuck) => (o.wreturned /\ o.werr)
 ====
